@@ -262,8 +262,11 @@ sigign = 0
 for line in rd('/proc/self/status').decode().splitlines():
     if line.startswith('SigIgn:'):
         sigign = int(line.split()[1], 16)
-ws = struct.unpack('HHHH', fcntl.ioctl(0, termios.TIOCGWINSZ, b'\0' * 8))
-echo = bool(termios.tcgetattr(0)[3] & termios.ECHO)
+try:
+    ws = struct.unpack('HHHH', fcntl.ioctl(0, termios.TIOCGWINSZ, b'\0' * 8))
+    echo = bool(termios.tcgetattr(0)[3] & termios.ECHO)
+except Exception:
+    ws, echo = (0, 0, 0, 0), None
 out = dict(argv=[a.decode('latin-1') for a in argv[2:]], env=sorted(e.decode('latin-1') for e in env), cwd=os.getcwd(),
            rows=ws[0], cols=ws[1], echo=echo, hup_ignored=bool(sigign & 1))
 sys.stdout.write('<<<' + json.dumps(out) + '>>>')
@@ -340,6 +343,51 @@ def run_child(task, acc):
                 acc.violation('child:%s:%s' % (k, aname), 'child saw %s=%r, requested %r (cwd=%r env=%s dim=%r echo=%r ighup=%r)'
                               % (k, got.get(k), want[k], cwd, envk, dim, echo, ighup),
                               dict(task=task, index=i))
+        # piped subprocess (PopenSpawn): argv (list and shlex-split string), cwd, env
+        if task['part'] == 0:
+            from pexpect import popen_spawn
+            for cwd in (None, workdir):
+                for envk in (None, 'dict'):
+                    for form in ('list', 'string'):
+                        for enc in (None, 'utf-8'):
+                            env = None if envk is None else {'LC_ALL': 'C.UTF-8', 'C13': 'v a l', 'PATH': '/usr/bin:/bin'}
+                            if form == 'list':
+                                cmd = [sys.executable, probe, 'a b', "it's", '\xe9']
+                            else:
+                                cmd = '%s %s "a b" "it\'s" \xe9' % (sys.executable, probe)
+                            want_args = ['a b', "it's", '\xe9'.encode('utf-8').decode('latin-1')]
+                            got = None
+                            for attempt in range(3):
+                                try:
+                                    child = popen_spawn.PopenSpawn(cmd, cwd=cwd, env=env, timeout=60, encoding=enc)
+                                    child.expect(pexpect.EOF)
+                                    txt = child.before if isinstance(child.before, str) else child.before.decode('latin-1')
+                                    child.wait()
+                                    if '<<<' in txt:
+                                        got = json.loads(txt[txt.index('<<<') + 3: txt.index('>>>')])
+                                        break
+                                except (pexpect.TIMEOUT, pexpect.ExceptionPexpect, OSError):
+                                    continue
+                            acc.execs += 1
+                            acc.transitions += 1
+                            n += 1
+                            if got is None:
+                                acc.extra['inconclusive'] = acc.extra.get('inconclusive', 0) + 1
+                                continue
+                            acc.flags['probe_answered'] += 1
+                            acc.nontrivial += 1
+                            want = dict(argv=want_args, cwd=os.path.realpath(cwd) if cwd else os.getcwd())
+                            if env is not None:
+                                want['env'] = sorted('%s=%s' % kv for kv in env.items())
+                            else:
+                                want['env'] = sorted(k.encode('utf-8', 'surrogateescape').decode('latin-1') + '=' +
+                                                     v.encode('utf-8', 'surrogateescape').decode('latin-1') for k, v in os.environ.items())
+                            bad = [k for k in want if got.get(k) != want[k]]
+                            acc.outcomes['popen-child:%s' % ('ok' if not bad else 'bad')] += 1
+                            if bad:
+                                k = bad[0]
+                                acc.violation('popen-child:%s:%s' % (k, form), 'PopenSpawn child saw %s=%r, requested %r (cwd=%r env=%s)'
+                                              % (k, got.get(k), want[k], cwd, envk), dict(task=task, index='popen'))
         acc.states += n
         acc.sample(dict(kind='child', cwd=workdir, env='dict', dimensions=[50, 132], echo=False, ignore_sighup=True, argv=['a b', ' c']))
     finally:
